@@ -58,10 +58,28 @@ def seeded():
     return "\n".join(rows)
 
 
+def extensions():
+    rows = ["| id | title | statement | anchors | level | TLA+ modules run | deciding method | known / fixed |", "|---|---|---|---|---|---|---|---|"]
+    for f in sorted(glob.glob(os.path.join(V, "ext.d", "X*.json"))):
+        x = json.load(open(f))
+        try:
+            cov = json.load(open(os.path.join(V, "evidence", "ext", x["id"] + ".json")))["coverage"]
+        except Exception:
+            cov = {}
+        mods = sorted({r["module"] for r in cov.get("tlc_runs", [])})
+        kf = os.path.join(V, "known.d", x["id"] + ".json")
+        k = json.load(open(kf)) if os.path.exists(kf) else {"known": [], "fixed": []}
+        rows.append("| %s | %s | %s | %s | %s | %s | %s | %d / %d |" % (
+            x["id"], x["title"], str(x["statement"]).replace("|", "/").replace("\n", " "),
+            ", ".join(os.path.basename(a) for a in x.get("anchors", [])), x.get("level_claimed", {}).get("category", ""),
+            ", ".join(mods) or "–", str(x.get("technique", "")).replace("|", "/"), len(k["known"]), len(k["fixed"])))
+    return "\n".join(rows)
+
+
 def main():
     p = os.path.join(V, "DESIGN.md")
     s = open(p).read()
-    for name, fn in (("asbuilt", asbuilt), ("fixes", fixes), ("seeded", seeded)):
+    for name, fn in (("asbuilt", asbuilt), ("fixes", fixes), ("seeded", seeded), ("extensions", extensions)):
         b, e = "<!-- BEGIN GENERATED:%s -->" % name, "<!-- END GENERATED:%s -->" % name
         if b not in s:
             s += "\n%s\n%s\n" % (b, e)
